@@ -59,6 +59,6 @@ pub fn check_one(s: &str) -> Option<Witness> {
 
 pub fn search(_obl: &str) -> Option<Witness> {
     let mut found = None;
-    crate::util::strings(ALPHA, 6, |s| { if let Some(w) = check_one(s) { found = Some(w); true } else { false } });
+    crate::util::strings(ALPHA, if crate::util::deep() { 7 } else { 6 }, |s| { if let Some(w) = check_one(s) { found = Some(w); true } else { false } });
     found
 }
